@@ -308,8 +308,14 @@ START_RE = re.compile(r"^(?P<indent>\s*)(?P<name>[^·]+?)·+\s*$")
 ERR_RE = re.compile(r"^(\d+)\. (.*)$")
 
 
+CANON_TOP = ["Default input", "Read config", "Compile", "Validate output", "Generate code"]
+CANON_RULES = ["Scope", "Circular dependencies", "Missing parameters", "Missing services"]
+
+
 class Report:
-    """Structured view of the tool's stdout: steps with status and counts, numbered error list."""
+    """Structured view of the tool's stdout: steps with status and counts, numbered error list.
+    Steps are identified by POSITION (k-th top-level step, j-th rule of the validation step); their printed names are
+    kept as raw_name only, so that renaming a step is not mistaken for a change of behaviour."""
 
     def __init__(self, text):
         self.text = text
@@ -317,19 +323,19 @@ class Report:
         self.started = []
         self.errors = []     # list of strings (the numbered list, continuation lines joined)
         self.has_errors_header = False
-        in_errors = False
-        for line in text.split("\n"):
-            if in_errors:
-                m = ERR_RE.match(line)
-                if m and int(m.group(1)) == len(self.errors) + 1:
-                    self.errors.append(m.group(2))
-                elif self.errors and line != "":
-                    self.errors[-1] += "\n" + line
-                continue
-            if line.strip() == "Errors:":
-                in_errors = True
-                self.has_errors_header = True
-                continue
+        lines = text.split("\n")
+        last_end = -1
+        for i, line in enumerate(lines):
+            if END_RE.match(line):
+                last_end = i
+        # the numbered list: the first "1. " line after the last END line (the line before it is the header)
+        first_err = None
+        for i in range(last_end + 1, len(lines)):
+            if lines[i].startswith("1. "):
+                first_err = i
+                break
+        body_end = first_err if first_err is not None else len(lines)
+        for line in lines[:body_end]:
             m = END_RE.match(line)
             if m:
                 st = {"[✓]": "ok", "[⨉]": "fail", "ignored": "ignored"}[m.group("mark")]
@@ -339,6 +345,22 @@ class Report:
             m = START_RE.match(line)
             if m:
                 self.started.append(m.group("name").strip())
+        if first_err is not None:
+            self.has_errors_header = True
+            for line in lines[first_err:]:
+                m = ERR_RE.match(line)
+                if m and int(m.group(1)) == len(self.errors) + 1:
+                    self.errors.append(m.group(2))
+                elif self.errors and line != "":
+                    self.errors[-1] += "\n" + line
+        # canonical names by position
+        tops = [s for s in self.steps if s["depth"] == 0]
+        rules = [s for s in self.steps if s["depth"] == 1]
+        if len(tops) <= len(CANON_TOP) and len(rules) <= len(CANON_RULES):
+            for i, s_ in enumerate(tops):
+                s_["raw_name"], s_["name"] = s_["name"], CANON_TOP[i]
+            for i, s_ in enumerate(rules):
+                s_["raw_name"], s_["name"] = s_["name"], CANON_RULES[i]
 
     def step(self, name):
         for s in self.steps:
